@@ -83,6 +83,8 @@ KEPT = (allj(ENDO, 'len(self.TimeSeries[%s[j][0]]) == step + 1 and isfinite(self
         allj(LAG, 'len(self.TimeSeries[%s[j][0]]) == step + 1 and same(self.TimeSeries[%s[j][0]][step], old(self.TimeSeries[%s[j][1]][step - 1]))' % (LAG, LAG, LAG)) + ' and ' +
         allj(EXO, 'unchanged(self.TimeSeries[%s[j][0]])' % EXO))
 
+PLISTS = ' and '.join('unchanged(%s)' % l for l in (ENDO, LAG, EXO, DEC))     # the parser's lists themselves (ground equalities)
+
 TMOD = ['len.TS_SE', 'el.TS_SE', 'len.TS_XE', 'el.TS_XE', 'len.I', 'el.I', 'tyof']      # scratch lists of the decorative block
 SCRATCH0 = ('fresh(vars_to_compute) and fresh(vtc_ix) and fresh(dv_ix) and fresh(decoration_values) and fresh(initial) and '
             'vtc_ix is not dv_ix and vars_to_compute is not decoration_values')
@@ -122,6 +124,7 @@ LOOPS = {
         ('sweeps_within_cap', '0 <= num_tries and num_tries <= self.MaxIterations'),
         ('tolerance_finite', 'isfinite(err_toler)'),
         ('no_sweep_yet', 'implies(num_tries == 0, relative_error == 1.0)'),
+        ('error_is_nan_or_nonnegative', 'isnan(relative_error) or relative_error >= 0.0'),
         ('finite_error_means_finite_iterate', 'implies(num_tries >= 1 and isfinite(relative_error), %s)' % FIN_ENDO('initial')),
     ], decreases='self.MaxIterations + 1 - num_tries'),
     6: LoopSpec(index='g', modifies=DMOD, ghost={'HG': 'heap_now()'}, invariants=[
@@ -151,32 +154,29 @@ LOOPS = {
     # ---- decorative variables: evaluated into decoration_values, nothing appended yet --------------------------
     # ghost index lists (sidecar ghost code): vtc_ix[i] / dv_ix[i] = index in Parser.Decoration of the i-th pending / done entry
     9: LoopSpec(index='dk_', modifies=TMOD, invariants=[
-        ('frame', FR), ('scratch', SCRATCH0),
+        ('frame', FR), ('parser_lists_kept', PLISTS), ('scratch', SCRATCH0),
         ('bounds', '0 <= dk_ and dk_ <= len(%s)' % DEC),
         ('pending_is_a_prefix_copy', 'len(vars_to_compute) == dk_ and len(vtc_ix) == dk_ and len(dv_ix) == 0 and len(decoration_values) == 0 and '
                                      'all(vtc_ix[i] == i and vars_to_compute[i] == %s[i] for i in range(0, dk_))' % DEC),
     ]),
     10: LoopSpec(index=None, modifies=DMOD + TMOD, invariants=[
-        ('frame', FR), ('scratch', SCRATCH0),
+        ('frame', FR), ('parser_lists_kept', PLISTS), ('scratch', SCRATCH0),
         ('iterate_kept', endo_keys('initial') + ' and ' + lag_keys('initial') + ' and ' + FIN_ENDO('initial')),
         ('pending_entries', PENDING('vars_to_compute', 'vtc_ix')),
         ('done_entries', DONE),
-        ('every_decorative_is_pending_or_done', COVER('vtc_ix')),
+        ('pending_and_done_disjoint', 'all(vtc_ix[a] != dv_ix[b] for a in range(0, len(vtc_ix)) for b in range(0, len(dv_ix)))'),
     ], decreases='len(vars_to_compute)'),
     11: LoopSpec(index='w', modifies=DMOD + TMOD, ghost={'HM': 'heap_now()'}, invariants=[
-        ('frame', FR), ('scratch', SCRATCH0 + ' and fresh(failed) and fresh(failed_ix) and failed is not vars_to_compute and failed_ix is not vtc_ix and '
+        ('frame', FR), ('parser_lists_kept', PLISTS), ('scratch', SCRATCH0 + ' and fresh(failed) and fresh(failed_ix) and failed is not vars_to_compute and failed_ix is not vtc_ix and '
                                               'failed is not decoration_values and failed_ix is not dv_ix'),
         ('bounds', '0 <= w and w <= len(vars_to_compute)'),
         ('pending_list_kept', 'list_same_as(HM, vars_to_compute) and list_same_as(HM, vtc_ix)'),
         ('iterate_kept', endo_keys('initial') + ' and ' + lag_keys('initial') + ' and ' + FIN_ENDO('initial')),
         ('pending_entries', PENDING('vars_to_compute', 'vtc_ix')),
-        ('failed_entries', PENDING('failed', 'failed_ix') + ' and all(any(failed_ix[i] == vtc_ix[q] for q in range(0, w)) for i in range(0, len(failed_ix))) and len(failed) <= w'),
+        ('failed_entries', PENDING('failed', 'failed_ix') + ' and all(failed_ix[i] < vtc_ix[q] for i in range(0, len(failed_ix)) for q in range(w, len(vtc_ix))) and len(failed) <= w'),
         ('done_entries', DONE),
         ('done_and_failed_disjoint', 'all(dv_ix[a] != failed_ix[b] for a in range(0, len(dv_ix)) for b in range(0, len(failed_ix)))'),
         ('done_and_unprocessed_disjoint', 'all(dv_ix[a] != vtc_ix[q] for a in range(0, len(dv_ix)) for q in range(w, len(vtc_ix)))'),
-        ('every_decorative_is_unprocessed_failed_or_done',
-         'all(any(vtc_ix[q] == j for q in range(w, len(vtc_ix))) or any(failed_ix[i] == j for i in range(0, len(failed_ix))) or any(dv_ix[i] == j for i in range(0, len(dv_ix))) '
-         'for j in range(0, len(%s)))' % DEC),
     ]),
     12: LoopSpec(index='z', modifies=[], invariants=[]),
     # ---- appending the period ---------------------------------------------------------------------------------
@@ -200,3 +200,49 @@ LOOPS = {
         ('decorative_not_yet_appended', 'all(len(self.TimeSeries[%s[dv_ix[q]][0]]) == step for q in range(u, len(dv_ix)))' % DEC),
     ]),
 }
+
+
+# cut before the append phase: what is needed from here on
+GHOST.append(('while len(vars_to_compute) > 0:', "_cut('before_append', %r, %r, %r, %r, %r)" % (
+    FR + ' and ' + PLISTS, 'fresh(initial) and fresh(decoration_values) and fresh(dv_ix)',
+    endo_keys('initial') + ' and ' + lag_keys('initial'), FIN_ENDO('initial'), DONE)))
+
+# cut after the fixed-point iteration: only the iterate and the frame matter for the rest
+GHOST.append(("Logger('Number of iterations: {0}'.format(num_tries), priority=3)", "_cut('after_iteration', %r, %r, %r, %r)" % (
+    FR + ' and ' + PLISTS, 'fresh(initial)', endo_keys('initial') + ' and ' + lag_keys('initial'), FIN_ENDO('initial'))))
+
+
+INTACT = ('periods_already_solved_intact', 'lists_unchanged() and dicts_unchanged()')
+
+
+def solvestep_contract(name=None):
+    """the (non-tracing) contract of _SolveStep; verified in C02, C10 and C11 (each property reads its own clauses)"""
+    return fn(
+        'sfc_models.equation_solver.EquationSolver._SolveStep', name=name,
+        args=dict(self=Ref('EquationSolver'), step=INT, is_trace_step=BOOL),
+        float_mode='xreal',
+        hints=HINTS,
+        requires=[('not_tracing', 'not is_trace_step'), ('cap_nonneg', 'self.MaxIterations >= 0'),
+                  ('solver_ready', READY), ('names_and_series_distinct', DISTINCT),
+                  ('tolerance_parameter_finite', 'is_none(self.ParameterErrorTolerance) or isfinite(get(self.ParameterErrorTolerance))')],
+        ghost_after=[('err_toler = float(self.Parser.Err_Tolerance)', "_assume('isfinite(err_toler)')")] + GHOST,
+        loops=LOOPS,
+        contract_at_calls=False,
+        ensures=[
+            # C10
+            ('simultaneous_and_lagged_series_get_one_point', KEPT),
+            ('lagged_equals_source_of_previous_period', allj(LAG, 'same(self.TimeSeries[%s[j][0]][step], old(self.TimeSeries[%s[j][1]][step - 1]))' % (LAG, LAG))),
+            ('earlier_periods_untouched', 'old_lists_only_extended() and lists_unchanged_except_series_of(self) and dicts_unchanged()'),
+            ('equations_untouched', "heap_unchanged_except('tyof', 'len.*', 'el.*', 'dh.*', 'dv.*', 'dk')"),
+            # C02
+            ('reported_simultaneous_values_are_finite', allj(ENDO, 'isfinite(self.TimeSeries[%s[j][0]][step])' % ENDO)),
+            ('every_computed_decorative_value_is_finite_and_appended_once',
+             'all(len(self.TimeSeries[%s[dv_ix[q]][0]]) == step + 1 and isfinite(self.TimeSeries[%s[dv_ix[q]][0]][step]) for q in range(0, len(dv_ix)))' % (DEC, DEC)),
+        ],
+        # C11: only value errors (ConvergenceError is one) report arithmetic / convergence failure; NameError / other errors of the
+        # user's expressions pass through; nothing is appended on any failure
+        raises=[RaisesSpec('ValueError', when='True', ensures=[INTACT]),
+                RaisesSpec('NameError', when='True', ensures=[INTACT]),
+                RaisesSpec('OtherError', when='True', ensures=[INTACT])],
+        only_raises=True,
+    )
